@@ -1,6 +1,8 @@
 package main
 
 import (
+	"go/constant"
+	"go/token"
 	"go/types"
 
 	"golang.org/x/tools/go/ssa"
@@ -10,17 +12,20 @@ import (
 // single call site in the scope), read as one function: arms are looked for in every part, a return of a part is
 // translated into the (node, end) pair Pull hands to its caller, and guards include those of the call chain.
 type pullScope struct {
-	pull *ssa.Function
-	fns  []*ssa.Function
-	via  map[*ssa.Function]*ssa.Call
+	pull   *ssa.Function
+	fns    []*ssa.Function
+	via    map[*ssa.Function]*ssa.Call
+	isRole func(*ssa.Function) bool
+	recvT  types.Type
 }
 
 func (w *World) pullScopeOf(pull *ssa.Function, isRole func(*ssa.Function) bool) *pullScope {
-	sc := &pullScope{pull: pull, fns: []*ssa.Function{pull}, via: map[*ssa.Function]*ssa.Call{}}
+	sc := &pullScope{pull: pull, fns: []*ssa.Function{pull}, via: map[*ssa.Function]*ssa.Call{}, isRole: isRole}
 	if len(pull.Params) == 0 {
 		return sc
 	}
 	recvT := pull.Params[0].Type()
+	sc.recvT = recvT
 	seen := map[*ssa.Function]bool{pull: true}
 	for i := 0; i < len(sc.fns) && i < 12; i++ {
 		allInstrs(sc.fns[i], func(in ssa.Instruction) {
@@ -143,4 +148,199 @@ func (sc *pullScope) effRetD(ret *ssa.Return, depth int) (node, end ssa.Value, o
 		return v
 	}
 	return sub(n2), sub(e2), true
+}
+
+// isPart: g is a method of the adapter (same receiver, called on the caller's receiver) that is not one of the small
+// role methods.
+func (sc *pullScope) isPart(c *ssa.Call) *ssa.Function {
+	g := staticCallee(c)
+	if g == nil || sc.recvT == nil || len(g.Blocks) == 0 || len(g.Params) == 0 || !types.Identical(g.Params[0].Type(), sc.recvT) || sc.isRole(g) || g == sc.pull {
+		return nil
+	}
+	caller := c.Parent()
+	if len(c.Call.Args) == 0 || len(caller.Params) == 0 || c.Call.Args[0] != ssa.Value(caller.Params[0]) {
+		return nil
+	}
+	return g
+}
+
+// merged: the parts with several call sites in the scope (one body shared by several arms, told apart by constant
+// arguments: openContainer(objectState, "#obj") / openContainer(arrayState, "#arr")), with their call sites.
+func (sc *pullScope) merged() map[*ssa.Function][]*ssa.Call {
+	out := map[*ssa.Function][]*ssa.Call{}
+	inScope := map[*ssa.Function]bool{}
+	for _, f := range sc.fns {
+		inScope[f] = true
+	}
+	for _, f := range sc.fns {
+		allInstrs(f, func(in ssa.Instruction) {
+			if c, ok := in.(*ssa.Call); ok {
+				if g := sc.isPart(c); g != nil && !inScope[g] {
+					out[g] = append(out[g], c)
+				}
+			}
+		})
+	}
+	return out
+}
+
+// armView: one arm read through the parts it calls: the arm's own blocks plus, for every call in them of a part, the
+// blocks of the part that are feasible when its parameters are bound to the constants passed at that call.
+type armView struct {
+	sc     *pullScope
+	ifi    *ssa.If
+	own    []*ssa.BasicBlock
+	blocks []*ssa.BasicBlock
+	bind   map[ssa.Value]ssa.Value      // parameter of a part -> the constant passed by this arm
+	via    map[*ssa.Function]*ssa.Call // part -> the call of this arm that enters it
+}
+
+func (sc *pullScope) armView(ifi *ssa.If) *armView {
+	av := &armView{sc: sc, ifi: ifi, own: armBlocks(ifi), bind: map[ssa.Value]ssa.Value{}, via: map[*ssa.Function]*ssa.Call{}}
+	av.blocks = append(av.blocks, av.own...)
+	for i := 0; i < len(av.blocks) && len(av.via) < 8; i++ {
+		for _, in := range av.blocks[i].Instrs {
+			c, ok := in.(*ssa.Call)
+			if !ok {
+				continue
+			}
+			g := sc.isPart(c)
+			if g == nil || av.via[g] != nil || g == ifi.Parent() {
+				continue
+			}
+			av.via[g] = c
+			for k, p := range g.Params {
+				if k < len(c.Call.Args) {
+					if a := av.resolve(c.Call.Args[k]); a != nil {
+						if _, isC := a.(*ssa.Const); isC {
+							av.bind[p] = a
+						}
+					}
+				}
+			}
+			for _, b := range g.Blocks {
+				if av.feasible(b) {
+					av.blocks = append(av.blocks, b)
+				}
+			}
+		}
+	}
+	return av
+}
+
+// resolve: a parameter of a part read as the constant this arm passes for it.
+func (av *armView) resolve(v ssa.Value) ssa.Value {
+	if v == nil {
+		return nil
+	}
+	if b, ok := av.bind[v]; ok {
+		return b
+	}
+	if b, ok := av.bind[stripConv(v)]; ok {
+		return b
+	}
+	return v
+}
+
+// feasible: no guard of b compares a bound parameter with a constant in a way the arm's constant contradicts.
+func (av *armView) feasible(b *ssa.BasicBlock) bool {
+	for _, a := range guardAtoms(b) {
+		bo, ok := a.V.(*ssa.BinOp)
+		if !ok || (bo.Op != token.EQL && bo.Op != token.NEQ) {
+			continue
+		}
+		x, y := av.resolve(bo.X), av.resolve(bo.Y)
+		cx, okx := x.(*ssa.Const)
+		cy, oky := y.(*ssa.Const)
+		if !okx || !oky || cx.Value == nil || cy.Value == nil || cx.Value.Kind() != cy.Value.Kind() {
+			continue
+		}
+		if x == bo.X && y == bo.Y {
+			continue // a comparison of two literal constants is not a fact about the arm
+		}
+		eq := constant.Compare(cx.Value, token.EQL, cy.Value)
+		holds := eq == (bo.Op == token.EQL)
+		if holds != a.Pol {
+			return false
+		}
+	}
+	return true
+}
+
+// guards: the atoms under which b runs in this arm (its own, and those of the calls that enter its function).
+func (av *armView) guards(b *ssa.BasicBlock) []atom {
+	out := guardAtoms(b)
+	fn := b.Parent()
+	for i := 0; i < 6; i++ {
+		c := av.via[fn]
+		if c == nil {
+			break
+		}
+		out = append(out, guardAtoms(c.Block())...)
+		fn = c.Parent()
+	}
+	return out
+}
+
+// before: a runs before b in this arm (both lifted to a common function through the calls that enter the parts).
+func (av *armView) before(a, b ssa.Instruction) bool {
+	chain := func(x ssa.Instruction) []ssa.Instruction {
+		out := []ssa.Instruction{x}
+		for i := 0; i < 6; i++ {
+			c := av.via[x.Parent()]
+			if c == nil {
+				break
+			}
+			out = append(out, c)
+			x = c
+		}
+		return out
+	}
+	for _, x := range chain(a) {
+		for _, y := range chain(b) {
+			if x.Parent() == y.Parent() {
+				if x == y {
+					return false
+				}
+				return instrAfter(x, y)
+			}
+		}
+	}
+	return false
+}
+
+// returned: the values a call of a part hands back at result index idx in this arm (the results of the part's feasible
+// returns); v itself when it is not such a call.
+func (av *armView) returned(v ssa.Value) []ssa.Value {
+	idx := 0
+	var call *ssa.Call
+	switch x := stripConv(v).(type) {
+	case *ssa.Call:
+		call = x
+	case *ssa.Extract:
+		call, _ = x.Tuple.(*ssa.Call)
+		idx = x.Index
+	}
+	if call == nil {
+		return []ssa.Value{v}
+	}
+	g := staticCallee(call)
+	if g == nil || av.via[g] != call {
+		return []ssa.Value{v}
+	}
+	var out []ssa.Value
+	for _, b := range g.Blocks {
+		if !av.feasible(b) {
+			continue
+		}
+		for _, in := range b.Instrs {
+			if r, ok := in.(*ssa.Return); ok && idx < len(r.Results) {
+				out = append(out, r.Results[idx])
+			}
+		}
+	}
+	if len(out) == 0 {
+		return []ssa.Value{v}
+	}
+	return out
 }
